@@ -475,6 +475,19 @@ def g_collections(ctx, rng, i):
             b2 = _lib(ctx, g.join, m, l, what="join(2 coplanar line collections)")
             _same(ctx, a, g.PointCollection(p), "meet(join(p,q), join(p,r)) != p (collections)", [p, q, r])
             _same(ctx, b, b2, "join of coplanar line collections depends on order", [p, q, r])
+        # a collection of lines through one point against a single line through it: collection first / single first, function and method
+        p0 = p.reshape(-1, 4)[0]
+        for _ in range(30):
+            s = _rand_vec(rng, 4, "int")
+            if all(X.rank([X.vec(p0), X.vec(x), X.vec(s)]) == 3 for x in q.reshape(-1, 4)):
+                break
+        else:
+            return
+        lc = _lib(ctx, g.join, g.Point(p0), g.PointCollection(q), what="join(point, collection)")
+        single = _lib(ctx, g.join, g.Point(p0), g.Point(s), what="join")
+        if lc is not None and single is not None:
+            for f_, args_ in ((g.meet, (lc, single)), (g.meet, (single, lc)), (g.join, (lc, single)), (g.join, (single, lc)), (lc.meet, (single,)), (single.meet, (lc,))):
+                _lib(ctx, f_, *args_, what="coplanar 3D lines: collection against a single line")
     else:
         # single against collection, both orders, 3D
         p, q = _coll(rng, 4, shape, mode, 2)
